@@ -2071,6 +2071,15 @@ def remove_dead_ifs(source: str) -> str:
             end = max((e for (_, e) in ranges))
             indent = node.col_offset
             node_start, node_end = core.get_charnos(node, source)
+            if source.startswith("elif", node_start):
+                # What remains still depends on the conditions before the elif
+                if not source.startswith("elif", start):
+                    separator = " " if remove[0].lineno == node.lineno else "\n" + " " * remove[0].col_offset
+                    yield core.Range(node_start, node_end), "else:" + separator + source[start:end]
+                else:
+                    yield core.Range(node_start, node_end), source[start:end]
+                continue
+
             modified_body = " " * indent + re.sub("(?<![^\\n])    ", "", source[start:end]).lstrip()
 
             pre_else = source[:node_start]
